@@ -699,6 +699,101 @@ func secCpIP(ip net.IP) net.IP {
 	return append(net.IP{}, ip...)
 }
 
+// The three entry points are pure functions of their arguments: called from many goroutines at once
+// (the serve loop, lookups and the table maintainer all call them) each call returns what the same
+// call returns alone. The sequential results are compared with the model through their own lines.
+func secConcurrent(r *rng, thorough bool) {
+	type pair struct {
+		id  [20]byte
+		ip  []byte
+		sec [20]byte
+		ok  bool
+		crc uint32
+		rd  uint8
+	}
+	bnd := secBoundaryIPs()
+	var ps []pair
+	for i := 0; i < 192; i++ {
+		var ip []byte
+		switch i % 4 {
+		case 0:
+			ip = r.bytes(4)
+		case 1:
+			ip = r.bytes(16)
+		case 2:
+			ip = secMapped(r.bytes(4))
+		default:
+			ip = secCp(bnd[r.intn(len(bnd))])
+		}
+		p := pair{id: secRandID(r), ip: ip, rd: uint8(r.next())}
+		p.sec = secLineSecure(p.id, ip, r)
+		if i%2 == 0 {
+			p.id = p.sec // half of the verifications succeed
+		}
+		secLineIsSecure(p.id, ip)
+		p.ok, _ = secTryIsSecure(p.id, secCp(ip))
+		c, pn := secTryCrcIP(secCp(ip), p.rd)
+		emit("crcip %s %d => %s", hx(ip), p.rd, secTok(pn, fmt.Sprint(c)))
+		p.crc = c
+		ps = append(ps, p)
+	}
+	workers, iters := 8, 3000
+	if thorough {
+		iters = 60000
+	}
+	var mu sync.Mutex
+	bad := map[string]string{}
+	var wg sync.WaitGroup
+	for w := 0; w < workers; w++ {
+		wr := r.sub(100 + w)
+		wg.Add(1)
+		go func() {
+			defer wg.Done()
+			defer func() {
+				if p := recover(); p != nil {
+					mu.Lock()
+					bad["panic"] = fmt.Sprint(p)
+					mu.Unlock()
+				}
+			}()
+			for i := 0; i < iters; i++ {
+				p := &ps[wr.intn(len(ps))]
+				var what, det string
+				switch i % 3 {
+				case 0:
+					k := krpc.ID(p.id)
+					dht.SecureNodeId(&k, secCp(p.ip))
+					if [20]byte(k) != p.sec {
+						what, det = "SecureNodeId", fmt.Sprintf("id=%s ip=%s alone=%s concurrent=%s", hx(p.id[:]), hx(p.ip), hx(p.sec[:]), hx(k[:]))
+					}
+				case 1:
+					if ok := dht.NodeIdSecure(p.id, secCp(p.ip)); ok != p.ok {
+						what, det = "NodeIdSecure", fmt.Sprintf("id=%s ip=%s alone=%v concurrent=%v", hx(p.id[:]), hx(p.ip), p.ok, ok)
+					}
+				case 2:
+					if c := dht.VerifCrcIP(secCp(p.ip), p.rd); c != p.crc {
+						what, det = "crcIP", fmt.Sprintf("ip=%s rand=%d alone=%d concurrent=%d", hx(p.ip), p.rd, p.crc, c)
+					}
+				}
+				if what != "" {
+					mu.Lock()
+					if _, seen := bad[what]; !seen {
+						bad[what] = det
+					}
+					mu.Unlock()
+				}
+			}
+		}()
+	}
+	wg.Wait()
+	for _, what := range []string{"SecureNodeId", "NodeIdSecure", "crcIP", "panic"} {
+		if det, ok := bad[what]; ok {
+			secOracle("concurrent-call-differs", what, "%d goroutines: %s", workers, det)
+		}
+	}
+	emit("# security concurrent: %d pairs, %d goroutines x %d calls, differing=%d", len(ps), workers, iters, len(bad))
+}
+
 func securityEngine(seed uint64, tier string, _ []string) {
 	r := &rng{s: seed}
 	thorough := tier == "thorough"
@@ -708,4 +803,5 @@ func securityEngine(seed uint64, tier string, _ []string) {
 	secDetID(r.sub(4), thorough)
 	secInit(r.sub(5), thorough)
 	secSweepV4(r.sub(6), thorough)
+	secConcurrent(r.sub(7), thorough)
 }
